@@ -23,7 +23,8 @@ for pid in sorted(quick):
     c = q['coverage']
     t = thor.get(pid)
     tcell = '%s / %s / %ss' % (t['coverage']['states'], t['coverage']['transitions'], round(t['wall_s'])) if t else 'see evidence of a thorough run'
-    rows.append('| %s | %s | %s / %s / %ss | %s |' % (pid, c.get('bounds', '').replace('|', '/'), c['states'], c['transitions'], round(q['wall_s']), tcell))
+    bounds = c.get('bounds', '').split('; histories of depth 2')[0]       # the common suffix (driver H) is described once above the table
+    rows.append('| %s | %s | %s / %s / %ss | %s |' % (pid, bounds.replace('|', '/'), c['states'], c['transitions'], round(q['wall_s']), tcell))
 text = open('/verif/DESIGN.md', encoding='utf8').read()
 a, b = '<!-- BOUNDS-TABLE-BEGIN -->', '<!-- BOUNDS-TABLE-END -->'
 text = text[:text.index(a) + len(a)] + '\n' + '\n'.join(rows) + '\n' + text[text.index(b):]
